@@ -16,6 +16,24 @@ CLAIMS = {
    note=COMMON_NOTE + "Hand-written part of the model (loop structure of encode/decode) is tied by correspondence, not generated; bounds on the C side are observed by ASan with exact-size buffers on explored inputs.",
    technique="Lean 4 theorems (induction, decide +kernel over generated tables) + model regenerated from source + differential correspondence under ASan",
    ref="5/C19"),
+
+ "C06": dict(
+   text="Proof. Theorems over the decision kernels dec_validate_time and enc_validate_msg and the orchestration of dec_process_msg, which are re-translated from dec.c/enc.c "
+        "(clang typed AST -> Lean, C integer semantics explicit) on every run: acceptance only inside t0-skew<=t<=t0+min(ttl,max-ttl) over the integers (unconditionally, "
+        "including 32-bit wrap, which only rejects more), exact window/EXPIRED/REWOUND verdicts where no wrap occurs, decode-side TTL cap, encode-side TTL resolution "
+        "(0->default, >max->max), soft errors keep the payload (no reset). Tie: translation validation of the real static kernels on a boundary lattice (~30k tuples) and "
+        "end-to-end encode/decode with the clock interposed, byte-exact against the Lean credential model.",
+   note=COMMON_NOTE + "The --max-ttl option parser's range test (1..3600) is assumed (constant MUNGE_MAXIMUM_TTL is generated); time() is the only clock source and is interposed.",
+   technique="Lean 4 theorems (omega over if-trees) on kernels translated from the C source each run + translation validation + end-to-end differential run",
+   ref="5/C06"),
+ "C04": dict(
+   text="Proof. Theorems over the translated dec_validate_auth (accepts exactly: uid restriction ANY/equal/root-exemption-flag AND gid restriction ANY/equal/member; every refusal is "
+        "UNAUTHORIZED; root not exempt with the compile-time flag as generated) and over the translated dec_process_msg orchestration (authorisation runs after MAC+unpack and before "
+        "the time and replay stages; a refusal never reaches replay insert/remove and is reset before the single send). Tie: kernel validated on the full cross product of boundary ids; "
+        "end-to-end histories (unauthorised attempts x {fresh, expired, rewound, already decoded} then an authorised attempt) on the real pipeline, byte-exact against the model.",
+   note=COMMON_NOTE + "Group membership is a parameter here (C17 proves it equals the databases); SO_PEERCRED is interposed.",
+   technique="Lean 4 theorems on kernels/orchestration translated from the C source each run + translation validation + history-based differential run",
+   ref="5/C04"),
 }
 NA_REASON = "check not built yet (work in progress, see DESIGN.md section 7 staging)"
 
